@@ -895,3 +895,234 @@ func constructorScope(c *Ctx) []*ssa.Function {
 	sortFns(fns)
 	return fns
 }
+
+// ---- C17/C11: each list of a platform definition feeds the driver option of its own name, and only that one ---------
+//
+// Platform.AsOptions turns the definition into driver options. The on-open / on-close lists of the generic driver and
+// the network-on-open / network-on-close lists of the network driver are different hooks that both run when a network
+// driver opens; a list that reaches two of them is replayed -- its blind writes (an enable secret typed at what was a
+// password prompt the first time) land on the command line the second time, where they are echoed.
+
+func platformFieldsOf(v ssa.Value, recv ssa.Value, depth int, seen map[ssa.Value]bool, out map[string]bool) {
+	if v == nil || depth > 10 || seen[v] {
+		return
+	}
+	seen[v] = true
+	switch x := v.(type) {
+	case *ssa.FieldAddr:
+		if x.X == recv {
+			out[fieldOfAddr(x).Name()] = true
+			return
+		}
+		platformFieldsOf(x.X, recv, depth+1, seen, out)
+	case *ssa.UnOp:
+		platformFieldsOf(x.X, recv, depth+1, seen, out)
+	case *ssa.Phi:
+		for _, e := range x.Edges {
+			platformFieldsOf(e, recv, depth+1, seen, out)
+		}
+	case *ssa.Alloc:
+		for _, ref := range *x.Referrers() {
+			if st, ok := ref.(*ssa.Store); ok && st.Addr == ssa.Value(x) {
+				platformFieldsOf(st.Val, recv, depth+1, seen, out)
+			}
+		}
+	case *ssa.Call:
+		for _, a := range x.Call.Args {
+			platformFieldsOf(a, recv, depth+1, seen, out)
+		}
+		if x.Call.IsInvoke() {
+			platformFieldsOf(x.Call.Value, recv, depth+1, seen, out)
+		}
+	case *ssa.MakeInterface:
+		platformFieldsOf(x.X, recv, depth+1, seen, out)
+	case *ssa.ChangeType:
+		platformFieldsOf(x.X, recv, depth+1, seen, out)
+	case *ssa.Convert:
+		platformFieldsOf(x.X, recv, depth+1, seen, out)
+	case *ssa.Slice:
+		platformFieldsOf(x.X, recv, depth+1, seen, out)
+	case *ssa.MakeClosure:
+		for _, b := range x.Bindings {
+			platformFieldsOf(b, recv, depth+1, seen, out)
+		}
+	}
+}
+
+func checkAsOptionsWiring(c *Ctx, r *Report, rule string) {
+	want := map[string]string{
+		"WithFailedWhenContains": "FailedWhenContains",
+		"WithOnOpen":             "OnOpen",
+		"WithOnClose":            "OnClose",
+		"WithPrivilegeLevels":    "PrivilegeLevels",
+		"WithDefaultDesiredPriv": "DefaultDesiredPrivilegeLevel",
+		"WithNetworkOnOpen":      "NetworkOnOpen",
+		"WithNetworkOnClose":     "NetworkOnClose",
+	}
+	as := c.LookupFunc("platform", "Platform", "AsOptions")
+	if as == nil {
+		r.Anchor(rule, "(*platform.Platform).AsOptions")
+		return
+	}
+	fns := []*ssa.Function{as}
+	for _, ci := range callInstrs(as) {
+		if h := ci.Common().StaticCallee(); h != nil && h.Pkg == as.Pkg && h.Signature.Recv() != nil && len(h.Blocks) > 0 && h != as && len(h.Params) == 1 {
+			fns = append(fns, h)
+		}
+	}
+	seenOpt := map[string]int{}
+	for _, fn := range fns {
+		recv := ssa.Value(fn.Params[0])
+		for _, ci := range callInstrs(fn) {
+			call, ok := ci.(*ssa.Call)
+			if !ok {
+				continue
+			}
+			o := CalleeObj(call)
+			if o == nil || o.Pkg() == nil || !strings.HasSuffix(o.Pkg().Path(), "driver/options") {
+				continue
+			}
+			field, known := want[o.Name()]
+			if !known || len(call.Call.Args) == 0 {
+				continue
+			}
+			seenOpt[o.Name()]++
+			got := map[string]bool{}
+			platformFieldsOf(call.Call.Args[0], recv, 0, map[ssa.Value]bool{}, got)
+			var names []string
+			for k := range got {
+				names = append(names, k)
+			}
+			sort.Strings(names)
+			construct := fmt.Sprintf("options.%s #%d is built from %s only", o.Name(), seenOpt[o.Name()], field)
+			if len(names) == 1 && names[0] == field {
+				r.OK(rule, construct, c.Pos(call.Pos()), "")
+			} else {
+				r.Bad(rule, construct, c.Pos(call.Pos()), fmt.Sprintf("the argument of options.%s derives from the definition field(s) %v, not from %s alone: a list of the definition reaches a hook it was not written for (an on-open list that also becomes the network driver's on-open is replayed, and a secret it types blind is typed a second time at a prompt that echoes)", o.Name(), names, field))
+			}
+		}
+	}
+	for name := range want {
+		if seenOpt[name] == 0 {
+			r.Bad(rule, "options."+name+" is produced", c.Pos(as.Pos()), "AsOptions never produces options."+name+": that part of every definition is ignored")
+		} else if seenOpt[name] > 1 {
+			r.Bad(rule, "options."+name+" is produced once", c.Pos(as.Pos()), fmt.Sprintf("AsOptions produces options.%s %d times", name, seenOpt[name]))
+		}
+	}
+}
+
+// ---- C02/C06: a chunk is exactly as long as its header says ---------------------------------------------------------
+//
+// The 1.1 decoder slices each chunk out of the received data as data[cursor : cursor+size]. `size` must be the number
+// the chunk header declared -- the very result of the string-to-integer conversion -- on every path. A size that is
+// "repaired" when it does not fit (clamped to what is left) turns a reply that was cut short by a lost connection into a
+// shorter, well-formed-looking success.
+
+func isConversionResult(v ssa.Value) bool {
+	if cv, ok := v.(*ssa.Convert); ok {
+		v = cv.X
+	}
+	ex, ok := v.(*ssa.Extract)
+	if !ok || ex.Index != 0 {
+		return false
+	}
+	call, ok := ex.Tuple.(*ssa.Call)
+	if !ok {
+		return false
+	}
+	o := CalleeObj(call)
+	return o != nil && o.Pkg() != nil && o.Pkg().Path() == "strconv" && (o.Name() == "Atoi" || o.Name() == "ParseInt" || o.Name() == "ParseUint")
+}
+
+func checkChunkSizeAsDeclared(c *Ctx, r *Report, rule string, fns []*ssa.Function) {
+	n := 0
+	for _, fn := range fns {
+		allInstrs(fn, func(in ssa.Instruction) {
+			call, ok := in.(*ssa.Call)
+			if !ok || !inLoop(call.Block()) {
+				return
+			}
+			b, ok := call.Call.Value.(*ssa.Builtin)
+			if !ok || b.Name() != "append" || len(call.Call.Args) != 2 || !isByteSeq(call.Call.Args[0].Type()) {
+				return
+			}
+			if _, isPhi := call.Call.Args[0].(*ssa.Phi); !isPhi {
+				return
+			}
+			sl, ok := call.Call.Args[1].(*ssa.Slice)
+			if !ok {
+				return
+			}
+			n++
+			construct := fmt.Sprintf("%s chunk length#%d", shortFn(fn), n)
+			if sl.Low == nil || sl.High == nil {
+				r.Bad(rule, construct, c.Pos(call.Pos()), "the chunk appended is not data[cursor : cursor+size]")
+				return
+			}
+			hi, isAdd := sl.High.(*ssa.BinOp)
+			if !isAdd || hi.Op != token.ADD {
+				r.Unk(rule, construct, c.Pos(call.Pos()), "the upper bound of the chunk's slice is not of the form cursor + size")
+				return
+			}
+			var size ssa.Value
+			switch {
+			case hi.X == sl.Low:
+				size = hi.Y
+			case hi.Y == sl.Low:
+				size = hi.X
+			default:
+				r.Unk(rule, construct, c.Pos(call.Pos()), "the upper bound of the chunk's slice is not of the form cursor + size")
+				return
+			}
+			if isConversionResult(size) {
+				r.OK(rule, construct, c.Pos(call.Pos()), "size is the converted header value itself")
+			} else {
+				r.Bad(rule, construct, c.Pos(call.Pos()), "the length of the chunk that is appended is not the number its header declared on every path (the converted value is replaced or adjusted before use): a declared size that does not fit what was received -- the mark of a reply cut short by a lost connection -- is bent to fit, and a truncated reply is reported as a complete, successful one")
+			}
+		})
+	}
+	if n == 0 {
+		r.Notes = append(r.Notes, rule+": no chunk append of the form append(acc, data[lo:hi]...) found in the decoder; nothing decided by this rule")
+	}
+}
+
+// ---- C06/C16: an in-process pipe the library reads device output from has a write end that somebody closes ---------
+//
+// A transport that reads from an io.Pipe sees the end of the stream only when the pipe's write end is closed. The ssh
+// library closes the pipes it hands out itself (Session.StdoutPipe); an io.Pipe the transport makes on its own and
+// plugs in as Session.Stdout is never closed by anybody: when the peer goes away the copy goroutine ends, the pending
+// Read stays parked, and the operation in flight waits out its whole timeout instead of failing at once.
+
+func checkPipeWriterClosed(c *Ctx, r *Report, rule string) {
+	closes := map[*ssa.Package]bool{}
+	for _, fn := range c.LibFns {
+		for _, ci := range callInstrs(fn) {
+			o := CalleeObj(ci)
+			if o == nil || o.Pkg() == nil || o.Pkg().Path() != "io" || recvTypeName(o) != "PipeWriter" {
+				continue
+			}
+			if o.Name() == "Close" || o.Name() == "CloseWithError" {
+				closes[fn.Pkg] = true
+			}
+		}
+	}
+	n := 0
+	for _, fn := range c.LibFns {
+		for _, ci := range callInstrs(fn) {
+			o := CalleeObj(ci)
+			if o == nil || o.Pkg() == nil || o.Pkg().Path() != "io" || o.Name() != "Pipe" {
+				continue
+			}
+			n++
+			construct := fmt.Sprintf("io.Pipe #%d in %s", n, shortFn(fn))
+			if closes[fn.Pkg] {
+				r.OK(rule, construct, c.Pos(ci.Pos()), "the package closes a pipe writer")
+			} else {
+				r.Bad(rule, construct, c.Pos(ci.Pos()), "the package makes an in-process pipe but never closes a pipe's write end: a reader of that pipe can never see the end of the stream, so when the connection is lost the blocked read does not return and the operation in flight waits out its timeout instead of failing promptly")
+			}
+		}
+	}
+	if n == 0 {
+		r.OK(rule, "the library makes no in-process pipe", "-", "no call of io.Pipe in the library")
+	}
+}
